@@ -54,7 +54,7 @@ def family(tier):
             if (zlib.crc32(repr((j, on, wh, tg, tail)).encode()) % 3) == 0 or wh is None or tail == '':
                 out.append((j, on, wh, tg, tail))
     else:
-        out = list(itertools.product(JOINS, ONS, WHERES, TAILS))
+        out = [(j, on, wh, tg, tail) for j, on, wh, (tg, tail) in itertools.product(JOINS, ONS, WHERES, TAILS)]
     sqls = []
     for j, on, wh, tg, tail in out:
         sql = 'SELECT %s FROM int1.t1 AS x %s int2.t2 AS y ON %s' % (tg, j, on)
